@@ -77,7 +77,7 @@ MCSize == [f \in Files |-> CASE f = 1 -> %d [] f = 2 -> %d [] OTHER -> %d]
 `
 
 func reuseCfg(maxCalls int, variant string, emit bool) string {
-	return fmt.Sprintf("CONSTANTS Files = {1, 2, 3} MaxCalls = %d Variant = \"%s\" EmitHist = %s\nSize <- MCSize\nINIT Init\nNEXT Next\nINVARIANTS Stable Unshared Disjoint Emit\nVIEW View\nCHECK_DEADLOCK FALSE\n", maxCalls, variant, tlaBool(emit))
+	return fmt.Sprintf("CONSTANTS Files = {1, 2, 3} MaxCalls = %d Variant = \"%s\" EmitHist = %s CanRefuse = %s\nSize <- MCSize\nINIT Init\nNEXT Next\nINVARIANTS Stable Unshared Disjoint MapsKept Emit\nVIEW View\nCHECK_DEADLOCK FALSE\n", maxCalls, variant, tlaBool(emit), tlaBool(reuseImports || variant == "resetOnRefusal"))
 }
 
 type reuseOp struct {
@@ -144,6 +144,16 @@ func reuseReplayWith(b reuseBeh, sources []string, judge func(src, out string) s
 	}
 	for n, op := range b.Hist {
 		switch op.Op {
+		case "refuse":
+			// a file the syntax-based resolver refuses (dot-import), on the same Decorator
+			if _, err := d.Parse("package refused\n\nimport . \"strings\"\n\nvar _ = ToUpper(\"x\")\n"); err == nil {
+				return "harness: the dot-import file was not refused"
+			}
+			for i, df := range dfiles {
+				if d.Ast.Nodes[df.f] == nil {
+					return fmt.Sprintf("call %d: after a refused decoration the Decorator's maps no longer know decorated file %d (source %d)", n+1, i+1, df.src)
+				}
+			}
 		case "decorate":
 			f, err := d.Parse(sources[op.A-1])
 			if err != nil {
@@ -216,7 +226,7 @@ func reuseCheck(c *Ctx, sources []string, judge func(src, out string) string, ki
 		return false
 	}
 	c.TLC(mc)
-	for variant, inv := range map[string]string{"reuseLines": "Stable", "sameBase": "Disjoint"} {
+	for variant, inv := range map[string]string{"reuseLines": "Stable", "sameBase": "Disjoint", "resetOnRefusal": "MapsKept"} {
 		v, err := RunTLC(TLCRun{Module: "ReuseMC", Cfg: reuseCfg(4, variant, false), Workers: 1, Timeout: 20 * time.Minute, Files: files})
 		if err != nil || (v.Violated != inv && v.Violated != "Unshared") {
 			c.Infra("TLC did not reject the " + variant + " variant of Reuse: " + errText(v, err))
